@@ -52,7 +52,23 @@ REPRESENTATIVE_TABLES = {
     "two_fixed":      binnify([4, 4], 2),
     "long_last":      table_from_edges([[0, 2, 4, 9], [0, 2, 5]]),   # last bin longer than the others
     "grid_long_single": table_from_edges([[0, 2, 4, 6], [0, 5]]),  # uniform grid + a contig covered by one longer bin
+    "long_single_first": table_from_edges([[0, 5], [0, 2, 4, 6]]),  # the same with the one-bin contig BEFORE the grid
 }
+
+
+def sibling_table(table):
+    """Another valid bin table over the SAME chromosomes and lengths with other interior boundaries (a second digest of one
+    genome): a chromosome of several bins becomes one bin, a one-bin chromosome of length >= 2 is cut after its first base."""
+    out, by = [], {}
+    for c, s, e in table:
+        by.setdefault(c, []).append((s, e))
+    for c in sorted(by):
+        length = by[c][-1][1]
+        if len(by[c]) > 1 or length < 2:
+            out.append([c, 0, length])
+        else:
+            out += [[c, 0, 1], [c, 1, length]]
+    return out
 
 
 def chrom_lens(table):
